@@ -37,9 +37,11 @@ def run(ctx):
             for p in proportion_paths(m, fname):
                 if p['rk'] == 'return' and E.is_ok(p['value']):
                     variant, bounds = E.interval_parts(p['value'])
-                    if check_oracle_args(m, 'C06:' + tag, p['pc'], bounds, p['kind'], 'Zq') == 0:
-                        m.violated_structurally('C06:%s:oracle:%s' % (tag, KNAME[p['kind']]), 'C06:%s:oracle' % tag, 'no Zq application in the returned bounds')
-        # unpaired: quantile argument (the dof identity is C04's obligation)
+                    if oracle_guard(ctx, m, 'C06:' + tag, p['pc'], bounds):
+                        check_oracle_args(m, 'C06:' + tag, p['pc'], bounds, p['kind'], 'Zq')
+        # unpaired: the documented effective degrees of freedom (real-valued, not rounded), t/z switch, formula: C04's obligations are part of this reduction
+        c04.unpaired(ctx, m)
+        # unpaired: quantile argument
         for r in c04.unpaired_paths(m):
             if r.kind == 'return' and E.is_ok(r.value):
                 variant, bounds = E.interval_parts(r.value)
